@@ -137,7 +137,7 @@ func (p *ref) token() (string, bool) {
 	return p.s[st:p.i], true
 }
 
-// §4.2.7 steps 1–6 (base64 decoding itself is not performed by the package)
+// §4.2.7 (the decoded value itself is not returned by the package; only decodability matters)
 func (p *ref) byteSeq() (string, bool) {
 	st := p.i
 	if p.eof() || p.peek() != ':' {
@@ -156,7 +156,32 @@ func (p *ref) byteSeq() (string, bool) {
 			return "", false
 		}
 	}
+	// step 7: "base64-decoding b64_content, synthesizing padding if necessary … If base64
+	// decoding fails, parsing fails."
+	if !rBase64Decodable(content) {
+		return "", false
+	}
 	return p.s[st:p.i], true
+}
+
+// rBase64Decodable: RFC 4648 §4 text over the alphabet above, where missing "=" padding may be
+// synthesised (never removed): 4-character quanta followed by nothing, xx, xx=, xx==, xxx or xxx=.
+// Non-zero pad bits are not an error (RFC 9651 §4.2.7, last paragraph).
+func rBase64Decodable(c string) bool {
+	d := strings.TrimRight(c, "=")
+	pad := len(c) - len(d)
+	if strings.Contains(d, "=") {
+		return false
+	}
+	switch len(d) % 4 {
+	case 0:
+		return pad == 0
+	case 2:
+		return pad <= 2
+	case 3:
+		return pad <= 1
+	}
+	return false
 }
 
 // §4.2.8
